@@ -149,6 +149,31 @@ def rule_p2(repo):
                 'the grammar production of `%s` recurses on the %s, but the printer brackets the left operand when its priority is %s and the right one when %s: '
                 'a %s (b %s c) or (a %s b) %s c is printed without brackets and re-read with the other nesting' % (
                     o, s, '<' if lcmp is ast.Lt else '<=', '<' if rcmp is ast.Lt else '<=', o, o, o, o), '%s:1' % EXPR)
+    # constructs whose concrete syntax ends in an open condition (if .. then .. else c, forall x. c): as operands they
+    # swallow what follows, so the printer must bracket them whatever the operator
+    open_classes = set()
+    tr = repo.cls(PARSER, 'HoareTransformer')
+    for p in cl.productions:
+        if p.symbols and not p.symbols[-1][1] and p.symbols[-1][0] in cl.level and p.symbols[0][1] and cl.token(p.symbols[0][0]) and \
+                cl.token(p.symbols[0][0]).isalpha() and p.alias in tr.methods:
+            for r in ast.walk(tr.methods[p.alias].node):
+                if isinstance(r, ast.Return) and isinstance(r.value, ast.Call) and (call_name(r.value) or '').startswith('expr.'):
+                    open_classes.add(call_name(r.value).split('.')[-1])
+    need(open_classes, 'parser2: no production that ends in an open condition (if-then-else / forall) found')
+    strf = repo.func(EXPR, 'Op.__str__')
+    br = need(strf.nested.get('bracket'), 'Op.__str__: helper bracket not found')
+    always = set()
+    for n in ast.walk(br.node):
+        if isinstance(n, ast.If) and isinstance(n.test, ast.Call) and call_name(n.test) == 'isinstance' and len(n.test.args) == 2 and \
+                any(isinstance(x, ast.Return) and isinstance(x.value, ast.BinOp) and "'('" in src(x.value) for st in n.body for x in ast.walk(st)):
+            t = n.test.args[1]
+            always |= {e.id for e in (t.elts if isinstance(t, (ast.Tuple, ast.List)) else [t]) if isinstance(e, ast.Name)}
+    for c in sorted(open_classes):
+        ok = c in always
+        res.add('%s :: Op.__str__ :: open-operand(%s)' % (EXPR, c), ok,
+                'always bracketed as an operand' if ok else
+                'a %s operand is printed without brackets: its last part extends as far to the right as possible, so (if c then a else b) & X '
+                'is read back as if c then a else (b & X)' % c, br.loc)
     # unary operators
     for tok in ('-', '~'):
         need(tok in ulev, 'grammar: prefix production for %s not found' % tok)
